@@ -290,3 +290,7 @@ class Program(object):
             if not dependents.get(command.result_name)
         ):
             command.run()
+
+        # Commands no leaf reaches are part of (or feed) a reference cycle; running them reports it
+        for command in self.commands.values():
+            command.run()
